@@ -44,18 +44,35 @@ MF = "luaexec.call_lua_sandbox.make_frame"
 def rule_r1(ctx) -> RuleResult:
     rr = RuleResult("C08.R1", "Python's (value, is_named) tuples and the Lua reader agree", min_instances=4)
     mf = ctx.fn(MF)
-    stores = [n for n in walk_no_nested(mf) if isinstance(n, ast.Assign) and isinstance(n.targets[0], ast.Subscript)
-              and unparse(n.targets[0].value) == "frame_args"]
+    # every value that reaches the table handed to Lua: `frame_args[k] = V` and `frame_args = {k: V for ...}`
+    stores = []
+    for n in walk_no_nested(mf):
+        if isinstance(n, ast.Assign) and isinstance(n.targets[0], ast.Subscript) and unparse(n.targets[0].value) == "frame_args":
+            stores.append((n.value, n))
+        elif isinstance(n, ast.Assign) and unparse(n.targets[0]) == "frame_args" and isinstance(n.value, ast.DictComp):
+            stores.append((n.value.value, n))
+        elif isinstance(n, ast.Assign) and unparse(n.targets[0]) == "frame_args" and isinstance(n.value, ast.Dict) and n.value.keys:
+            stores.extend((v, n) for v in n.value.values)
+        elif isinstance(n, ast.Call) and isinstance(n.func, ast.Attribute) and unparse(n.func.value) == "frame_args" \
+                and n.func.attr in ("update", "setdefault", "__setitem__"):
+            raise AnalysisError("make_frame: frame_args.{}(...) is outside the recognised store shapes".format(n.func.attr))
     if len(stores) < 2:
         raise AnalysisError("make_frame: frame_args[...] stores vanished")
-    for s in stores:
-        v = s.value
-        if isinstance(v, ast.Tuple) and len(v.elts) == 2 and unparse(v.elts[0]) == "arg" and (
-            (isinstance(v.elts[1], ast.Constant) and v.elts[1].value is False) or unparse(v.elts[1]) == "m is not None"
-        ):
-            rr.ok(MF, unparse(s), {"python": unparse(s)})
+    for v, s in stores:
+        if not (isinstance(v, ast.Tuple) and len(v.elts) == 2):
+            rr.bad(Finding("C08.R1", LX, MF, unparse(s)[:100], "frame arguments are not stored as (value, is_named) any more", s.lineno))
+            continue
+        flag = v.elts[1]
+        if isinstance(flag, ast.Constant) and flag.value is False:
+            rr.ok(MF, unparse(s)[:100], {"python": unparse(v)[:100], "flag": "False"})
+        elif isinstance(flag, ast.Compare) and len(flag.ops) == 1 and isinstance(flag.ops[0], ast.IsNot) \
+                and isinstance(flag.comparators[0], ast.Constant) and flag.comparators[0].value is None:
+            rr.ok(MF, unparse(s)[:100], {"python": unparse(v)[:100], "flag": unparse(flag)})
+        elif isinstance(flag, ast.Constant):
+            rr.bad(Finding("C08.R1", LX, MF, unparse(s)[:100], "the second element of a frame argument is not the is_named flag any more "
+                           "({!r})".format(flag.value), s.lineno))
         else:
-            rr.bad(Finding("C08.R1", LX, MF, unparse(s), "frame arguments are not stored as (value, is_named) any more", s.lineno))
+            raise AnalysisError("make_frame: the is_named flag `{}` of a stored frame argument is not a recognised boolean shape".format(unparse(flag)))
     p2 = ctx.lua.file("_sandbox_phase2.lua")
     fai = p2.func_named("frame_args_index")
     if fai is None:
